@@ -15,6 +15,7 @@ VAR_POOLS = {
     "subs_lo": {"S": "S", "A": "S#SUBS#0", "B": "S#SUBS#1", "C": "S#SUBS#2"},   # look like substitute's fresh variables
     "subs_hi": {"S": "S", "A": "S#SUBS#3", "B": "S#SUBS#2", "C": "A#SUBS#1"},
     "int0": {"S": "S", "A": 0, "B": 1, "C": 2},
+    "termlike": {"S": "S", "A": "#TERM#a", "B": "#TERM#b", "C": "#TERM#S"},   # spelled like to_pda's stack symbols for terminals
     "dollar": {"S": "S", "A": "$", "B": "B", "C": "C"},       # a variable spelled like the end marker of the LL(1) parser
     "other": {"S": "T", "A": "X", "B": "Y", "C": "Z"},          # shares no name with "upper"
     # with the terminal pool "Cterm": names of the helpers to_normal_form makes for the terminal C and for long bodies
